@@ -339,3 +339,48 @@ def Fsm.certLive (F : Fsm) : Bool :=
   F.map.all fun e => F.dead e.1 || (liveSet F).contains e.1
 
 end Cpppo.Regex
+
+/-! ### exact comparison of an fsm with an expression: a bisimulation certificate
+
+`explore` (unverified search) collects pairs (fsm state, simplified iterated derivative); `isBisim`
+(verified: `Cpppo.Proofs.Bisim.isBisim_sound`) checks that a list of pairs is closed under every symbol
+that matters and agrees on acceptance.  When it holds the fsm accepts exactly the expression's language. -/
+namespace Cpppo.Regex
+open Cpppo.Rx (Rx)
+
+/-- the symbols named by the fsm -/
+def fsmSyms (F : Fsm) : List Sym := F.map.flatMap fun e => e.2.filterMap (·.1)
+
+def maxOf (l : List Nat) : Nat := l.foldl max 0
+
+/-- the symbols that matter for a set of pairs: those named by the fsm or by an expression, plus one
+that is named nowhere -/
+def sigOf (F : Fsm) (R : List (Nat × Rx)) : List Sym :=
+  let named := fsmSyms F ++ R.flatMap fun p => p.2.syms
+  (maxOf named + 1) :: named
+
+def isBisim (F : Fsm) (r : Rx) (R : List (Nat × Rx)) : Bool :=
+  R.contains (F.init, r) &&
+  R.all fun p =>
+    (F.final p.1 == p.2.nullable) &&
+    (sigOf F R).all fun c => R.contains (F.step p.1 c, Rx.nderiv c p.2)
+
+/-- worklist search for the closure of `(init, r)` under the symbols of `sig` (fuel-bounded) -/
+def exploreGo (F : Fsm) (sig : List Sym) : Nat → List (Nat × Rx) → List (Nat × Rx) → List (Nat × Rx)
+  | 0, _, seen => seen
+  | _ + 1, [], seen => seen
+  | fuel + 1, p :: todo, seen =>
+    if seen.contains p then exploreGo F sig fuel todo seen
+    else
+      let seen' := seen ++ [p]
+      -- (a derivative that has grown beyond 2000 nodes is not pursued: no certificate then)
+      let succ := (sig.map fun c => (F.step p.1 c, Rx.nderiv c p.2)).filter fun x => x.2.size ≤ 2000
+      let fresh := succ.foldl (fun acc x => if seen'.contains x || todo.contains x || acc.contains x then acc
+                                            else acc ++ [x]) []
+      exploreGo F sig fuel (todo ++ fresh) seen'
+
+def explore (F : Fsm) (r : Rx) (fuel : Nat) : List (Nat × Rx) :=
+  let named := fsmSyms F ++ r.syms
+  exploreGo F ((maxOf named + 1) :: named) fuel [(F.init, r)] []
+
+end Cpppo.Regex
